@@ -16,6 +16,7 @@ func init() {
 		explanation: "Decides structural clauses of C01: (table) the predicate deciding whether a closed edge bounds the solution (isContributingClosed) equals, on every cell of the code-derived partition of (fillRule, clipType, polytype, windCount, windCount2), the set-theoretic table the property states; (open-guard) the boundary test of intersectEdges' open branch is the same own-set test; (ring) every ring walk over OutPt/OutPt2/Vertex lists leaves on cursor==start, i.e. visits the whole ring; (order) the sort comparators implement the sweep order (minima bottom-up, intersections bottom-up then left to right); (mirror) intersectEdges decides and updates winding state under Negative exactly as under Positive on the negated state; (table2) two crossing same-set boundary edges start a polygon exactly where the boolean table has a boundary; (grow/split) records split off during clean-up are visited, and a ring split by a horizontal join is relabelled before ownership of the entry point is tested; (live) no call to a sweep/repair mechanism sits in a constant-dead block. Does NOT decide the sweep's geometry: edge ordering, intersection rounding, winding update arithmetic, join/split topology.",
 		notDecided: []string{"active-edge ordering (isValidAelOrder)", "intersection detection and rounding", "winding-count update arithmetic in intersectEdges/setWindCountForClosedPathEdge", "horizontal processing, joins and splits", "doSplitOp's area condition (no in-repo oracle)"},
 		rules: []func(*Ctx){
+			ruleAelJoinSplice("C01.ael.join"),
 			ruleContribClosed("C01.table"),
 			ruleOpenGuard("C01.open-guard"),
 			ruleRing("C01.ring", 25, whyRing),
@@ -108,6 +109,7 @@ func init() {
 			ruleExactFloat("C14.exact.float", 29, exactPredicates, "the library treats three points as collinear / a point as on an edge exactly when this value is zero: a float detour beyond 53 bits rounds small non-zero cross products to zero (PointInPolygon answers IsOn for an inside point next to a long edge)"),
 			ruleBounds("C14.bounds", []string{"GetBounds64", "getBounds"}),
 			ruleBoundsEmpty("C14.bounds.empty"),
+			ruleCyclicPred("C14.wrap", []string{"PointInPolygon"}, 2, "the crossing test of vertex 0 is against the edge from the LAST vertex; reading another vertex tests a segment that is not an edge, and only polygons whose scan wraps past index 0 show it"),
 			ruleLimb("C14.limb", "mulInt64", "(int128).add", "(int128).sub", "(int128).toFloat64", "(int128).isZero", "multiplyUInt64", "productsAreEqual"),
 			rulePositive("C14.pos"),
 		},
@@ -119,7 +121,7 @@ func init() {
 		id: "C02",
 		explanation: "Decides structural clauses of C02: (emit) every closed path reaches a solution only through cleanCollinear -> buildPath(pts, c.reverseSolution, false, &path) -> append guarded by buildPath()==true, in the flat and in the tree pipeline alike; (buildPath) buildPath refuses rings of fewer than 3 nodes before writing and never appends a point equal to the last appended one; (reverse) every buildPath call site passes the engine's reverseSolution option, and the offsetter derives it as ReverseSolution != pathsReversed. Does NOT decide winding 0/1 of the whole solution, hole orientation or idempotence of re-union.",
 		notDecided: []string{"winding number 0/1 of the solution (geometry of the sweep)", "orientation of outer boundaries vs holes (addLocalMinPoly side choice)", "idempotence of re-uniting a solution"},
-		rules:      []func(*Ctx){ruleEmit("C02"), ruleBuildPath("C02.buildPath"), ruleCleanCollinear("C02.clean"), ruleGrowingList("C02.grow"), ruleSplitRelabel("C02.split")},
+		rules:      []func(*Ctx){ruleEmit("C02"), ruleBuildPath("C02.buildPath"), ruleCleanCollinear("C02.clean"), ruleGrowingList("C02.grow"), ruleSplitRelabel("C02.split"), ruleSplitDedupe("C02.split.dedupe")},
 	})
 	register(&propDef{
 		id: "C04",
@@ -188,6 +190,7 @@ func init() {
 		notDecided: []string{"the greedy order of removals (getNext/getPrior bookkeeping)", "on return no retained vertex is within epsilon of its neighbours' line", "invariance under scaling by a power of two (float rounding)"},
 		rules: []func(*Ctx){
 			ruleSimplify("C16"),
+			ruleUnflaggedReturn("C16.ring", []string{"getNext", "getPrior"}),
 			ruleSibling("C16.sibling", [][2]string{{"SimplifyPath64", "SimplifyPathD"}, {"SimplifyPaths64", "SimplifyPathsD"}},
 				map[string]string{"Path64": "PathD", "Paths64": "PathsD", "PerpendicDistFromLineSqr64": "PerpendicDistFromLineSqrD", "SimplifyPath64": "SimplifyPathD"},
 				"the two variants implement one algorithm; where they differ one of them is wrong (or both are and the property is judged on each)"),
@@ -224,6 +227,7 @@ func init() {
 			ruleRectMirror("C06.mirror"),
 			ruleSegIntersectMirror("C06.mirror.seg"),
 			ruleInsideArmMirror("C06.mirror.inside"),
+			ruleCyclicPred("C06.wrap", []string{"(RectClip64).executeInternal"}, 1, "the polygon is closed: the edge entering vertex 0 starts at the LAST vertex; any other choice clips a segment that is not an edge of the input"),
 			ruleDead("C06.corner-live", []string{"(RectClip64).executeInternal"}, []string{"(RectClip64).addCorner", "(RectClip64).addCornerLocation"}, 5, "corners of the rectangle enter the result only through these calls; when they are dead a path that leaves through one edge and re-enters through another loses the corner between them"),
 			ruleRectFast("C06.fast"),
 			ruleBounds("C06.bounds", []string{"getBounds"}),
